@@ -1337,6 +1337,13 @@ def _len(interp, v):
         text_facts(interp.ctx, v.e)
         return wrap(clen(v.e))
     if is_sym(v):
+        if isinstance(v, SOpaque) and getattr(v, "pytype", None) is None \
+                and getattr(getattr(interp.cur_frame, "unit", None), "opaque_arith", False):
+            st = interp.ctx.__dict__.setdefault("_opaque_len", {})
+            key = str(v.e)
+            if key not in st:
+                st[key] = interp.ctx.int("len_" + key, lo=0)
+            return st[key]
         raise eng.Unsupported(f"len of {type(v).__name__}")
     try:
         return len(v)
@@ -1477,6 +1484,9 @@ def _int(interp, v=0, *a):
             raise eng.PyRaise(type(ex), ex.args)
     if isinstance(v, SInt):
         return SInt(v.e)
+    if isinstance(v, SOpaque) and getattr(v, "pytype", None) is None \
+            and getattr(getattr(interp.cur_frame, "unit", None), "opaque_arith", False):
+        return interp.ctx.int("int_of_opaque")
     if isinstance(v, SBool):
         return wrap(z3.If(v.e, Z(1), Z(0)))
     if isinstance(v, SReal):
